@@ -314,6 +314,8 @@ class Weaver:
             stop = len(self.x)
         if start < 0:
             raise ValueError("Start index should be non-negative")
+        if start > len(self.x):
+            raise ValueError("Start index should not be greater than length of x")
         if stop > len(self.x):
             raise ValueError("Stop index should be less than length of x")
         return self.x[start:stop:step], self.y[start:stop:step]
@@ -987,6 +989,8 @@ class Weaver:
             stop = len(self.x)
         if start < 0:
             raise ValueError("Start index should be non-negative")
+        if start > len(self.x):
+            raise ValueError("Start index should not be greater than length of x")
         if stop > len(self.x):
             raise ValueError("Stop index should be less than length of x")
         self.x = self.x[start:stop]
